@@ -329,6 +329,37 @@ def oracle(run, deep):
                              {"history": list(order), "text": t, "observed": repr(g), "required": repr(fresh[t]),
                               "theorem": "C01_sequential_independent"})
                     return
+    # near-duplicates: texts that differ only in layout (also inside string literals) or by characters that Python
+    # calls whitespace but the lexer does not; parsed one after the other on ONE engine, both orders
+    def variants(t):
+        out = {t.replace(" ", "  "), t.replace(" ", "\t"), " " + t, t + " ", t.replace(" ", "\x0c"), t.replace(" ", "\xa0"),
+               t.replace(" ", "\n"), t.replace(" ", "")}
+        out.discard(t)
+        return sorted(out)
+    extra = ["'a b'", "\"x  y\"", "`p q`", "$.get('first name')", "'a' + ' '", "f('a b', 1)"]
+    fresh_memo = {}
+
+    def fresh_of(x):
+        if x not in fresh_memo:
+            fresh_memo[x] = outcome(lambda: engine()(x))
+        return fresh_memo[x]
+    for t in VALID + extra:
+        if " " not in t:
+            continue
+        e2 = engine()
+        hist = []
+        for v in variants(t):
+            for x in (t, v, t):
+                hist.append(x)
+                got = outcome(lambda: e2(x))
+                run.case(("neardup", t, v, len(hist)), nontrivial=True)
+                run.count("near_duplicate_history")
+                if got != fresh_of(x):
+                    run.fail("violation", "a parse on a reused engine differs from the parse on a fresh engine "
+                                          "(texts that differ only in layout / whitespace-like characters)",
+                             {"history": hist[-3:], "text": x, "observed": repr(got), "required": repr(fresh_of(x)),
+                              "theorem": "C01_sequential_independent"})
+                    return
     # re-entrant switch emulation: a complete parse of B between two fetches of A (thread-free)
     pool = VALID + INVALID
     for a in pool:
